@@ -385,11 +385,17 @@ class MeiParser(object):
         els_with_dur = self.music_el.xpath(".//*[@dur]")
         durs = []
         durs_ppq = []
+        durs_quarter = []
         for el in els_with_dur:
             symbolic_duration = self._get_symbolic_duration(el)
             intsymdur, dots, tuplet_mod = self._intsymdur_from_symbolic(
                 symbolic_duration
             )
+            # notated length in quarters (each dot adds half of the previous addition)
+            dur_quarter = Fraction(4) / Fraction(intsymdur) * (2 - Fraction(1, 2**dots))
+            if tuplet_mod is not None:
+                dur_quarter = dur_quarter * Fraction(tuplet_mod[0], tuplet_mod[1])
+            durs_quarter.append(dur_quarter)
             if tuplet_mod is not None:
                 # consider time modifications keeping the numerator of the minimized fraction
                 minimized_fraction = Fraction(intsymdur * tuplet_mod[1], tuplet_mod[0])
@@ -402,9 +408,9 @@ class MeiParser(object):
 
         if any([dppq is not None for dppq in durs_ppq]):
             # there is at least one element with both dur and dur.ppq
-            for dur, dppq in zip(durs, durs_ppq):
+            for dur_quarter, dppq in zip(durs_quarter, durs_ppq):
                 if dppq is not None:
-                    return dppq * dur / 4
+                    return float(dppq / dur_quarter)
         else:
             # compute the ppq from the durations
             # add 4 to be sure to not go under 1 ppq
